@@ -183,9 +183,12 @@ def mon_C11(run):
         k, d = row["k"], row["obs"]
         i = row["op"]
         # ground truth of max_size: the resize that took the mutex last; close => 0
-        if row["action"].startswith("step") and prev_labels.get(i, ("", False))[0] == "resize.lock":
-            op = run.ops[i]
-            cur_max = 0 if op["kind"] == "close" else int(op["spec"][0])
+        # (a resize on a closed pool does nothing: it checks is_closed() under the mutex)
+        pl0 = prev_labels.get(i, ("", False))[0]
+        if row["action"].startswith("step") and pl0 == "close.lock":
+            cur_max = 0
+        elif row["action"].startswith("step") and pl0 == "resize.lock" and not closed:
+            cur_max = int(run.ops[i]["spec"][0])
         for e in row["ev"]:
             name, args = ev_args(e)
             if name == "closed":
@@ -538,7 +541,8 @@ def mon_C09(run):
 
 
 def resize_timeline(run):
-    """for every resize/close op: step indices of check / lock (mutex taken) / done"""
+    """for every resize/close op: step indices of lock (mutex taken: the first step of the
+    operation) / done"""
     tl = {}
     prev = {}
     for row in run.rows:
@@ -548,13 +552,11 @@ def resize_timeline(run):
         op = run.ops[i]
         if op["kind"] in ("resize", "close"):
             e = tl.setdefault(i, {"n": 0 if op["kind"] == "close" else int(op["spec"][0]), "kind": op["kind"],
-                                  "start": op["start"], "check": None, "lock": None, "done": None})
+                                  "start": op["start"], "lock": None, "done": None})
             lbl = row["obs"]["lbl"]
             pl = prev.get(i)
             if row["action"].startswith("step"):
-                if pl == "resize.check" and e["check"] is None:
-                    e["check"] = row["k"]
-                if pl == "resize.lock" and e["lock"] is None:
+                if pl in ("resize.lock", "close.lock") and e["lock"] is None:
                     e["lock"] = row["k"]
                 if lbl == "done" and e["done"] is None:
                     e["done"] = row["k"]
@@ -714,11 +716,21 @@ def mon_C06(run):
                     for comp in ("max", "permits", "size"):
                         if b["obs"][comp] != d[comp] and "?" not in (b["obs"][comp], d[comp]):
                             bad.append((k, f"resize() after close() changed {comp}: {b['obs'][comp]} -> {d[comp]}", "resize-after-close"))
-            if all(lbl == "done" for lbl, _ in row["labels"].values()) and row["idle"] is not None:
-                if row["idle"]:
-                    bad.append((k, f"closed pool at rest still holds idle objects {row['idle']}", "idle-retained"))
-                elif d["max"] != "0":
-                    bad.append((k, f"closed pool at rest reports max_size {d['max']}", "max-after-close"))
+        # a resize() that takes the mutex after close() did has no effect, whenever it started
+        i = row["op"]
+        if i in tl and tl[i]["kind"] == "resize" and tl[i]["lock"] == k and k > 0 and rows[k - 1] is not None \
+                and any(e["lock"] is not None and e["lock"] < k for e in tl.values() if e["kind"] == "close"):
+            b = rows[k - 1]["obs"]
+            for comp in ("max", "permits", "size"):
+                if b[comp] != d[comp] and "?" not in (b[comp], d[comp]):
+                    bad.append((k, f"resize() on the closed pool changed {comp}: {b[comp]} -> {d[comp]}", "resize-after-close"))
+        if k >= c:
+            # a closed pool keeps nothing - in every state after close() returned, not only at rest
+            at_rest = all(lbl == "done" for lbl, _ in row["labels"].values())
+            if row["idle"]:
+                bad.append((k, f"closed pool{' at rest' if at_rest else ''} still holds idle objects {row['idle']}", "idle-retained"))
+            elif d["max"] not in ("0", "?"):
+                bad.append((k, f"closed pool{' at rest' if at_rest else ''} reports max_size {d['max']}", "max-after-close"))
         if bad:
             return bad[:1]
     return bad[:1]
@@ -1403,17 +1415,6 @@ def signature(prop, run, model_lines, diverged, k, msg, kind):
         return "shrink-undercollect"
     if prop == "C11" and kind == "create-over-max" and debt > 0:
         return "shrink-undercollect"
-    if prop == "C06" and kind in ("max-after-close", "kept-returned", "idle-retained"):
-        tl = resize_timeline(run)
-        closes = [e for e in tl.values() if e["kind"] == "close" and e["done"] is not None and e["lock"] is not None]
-        for e in tl.values():
-            if e["kind"] == "resize" and e["check"] is not None and e["lock"] is not None and e["lock"] <= k:
-                if any(e["check"] < c["done"] and e["lock"] > c["lock"] for c in closes):
-                    # the model must show the consequence too: max_size > 0 on the closed pool
-                    if m.get("max", "0") not in ("0", "?") or kind == "max-after-close":
-                        return "resize-races-close"
-    if prop == "C06" and kind == "idle-retained" and debt > 0:
-        return "close-retains-idle"
     return ""
 
 
